@@ -327,6 +327,16 @@ static void case_reduce(Tape &t, Ctx &cx)
     chk("sum2_:wrong", "a_real_sum2_ (strided)", a_real_sum2_(n, ps, c1), s2, 2 * s2);
     chk("dot:wrong", "a_real_dot", a_real_dot(n, p, q), d, 2 * da);
     chk("dot_:wrong", "a_real_dot_ (strided)", a_real_dot_(n, ps, c1, qs, c2), d, 2 * da);
+    // both operands in one block: the same vector twice (x.x), and x / y interleaved in one array (stride 2 each)
+    chk("dot:wrong", "a_real_dot (same vector twice)", a_real_dot(n, p, p), s2, 2 * s2);
+    chk("dot_:wrong", "a_real_dot_ (same strided vector twice)", a_real_dot_(n, ps, c1, ps, c1), s2, 2 * s2);
+    {
+        a_real *z = (a_real *)malloc(sizeof(a_real) * (n ? 2 * n : 1));
+        struct Fz { void *p; ~Fz() { free(p); } } fz{z};
+        for (unsigned i = 0; i < n; ++i) { z[2 * i] = x[i]; z[2 * i + 1] = y[i]; }
+        chk("dot_:wrong", "a_real_dot_ (operands interleaved in one array)", a_real_dot_(n, z, 2, z + 1, 2), d, 2 * da);
+        chk("sum_:wrong", "a_real_sum_ (odd cells of an interleaved array)", a_real_sum_(n, z + 1, 2), [&] { LD r = 0; for (unsigned i = 0; i < n; ++i) { r += y[i]; } return r; }(), [&] { LD r = 0; for (unsigned i = 0; i < n; ++i) { r += fabsl((LD)y[i]); } return r; }());
+    }
     if (n)
     {
         LD tol = (n + 3) * U_ * s1 / n + (ints && (n & (n - 1)) == 0 ? 0 : 0);
